@@ -384,6 +384,37 @@ fn mutate_kb(kb: &mut KnowledgeBase, scn: &Scenario, kind: u64, q: usize, t: &mu
     t.kb_mutations += 1;
 }
 
+/// The substitution-set API on an answer, as a caller inspecting a solution would use it:
+/// references obtained from one call are kept across the other calls and used afterwards.
+fn inspect_answer(goal: &Goal, ss: &Rc<SubstitutionSet>, t: &mut Tally) {
+    if let Goal::ComplexGoal(Unifiable::SComplex(terms)) = goal {
+        for term in terms.iter().skip(1) {
+            if let Unifiable::LogicVar { id, .. } = term {
+                if *id == 0 || *id >= ss.len() {
+                    continue;
+                }
+                let bound = is_bound(term, ss);
+                let binding = if bound { get_binding(term, ss) } else { None };
+                let ground = get_ground_term(term, ss);
+                let is_ground = is_ground_variable(term, ss);
+                let constant = get_constant(term, ss);
+                let list = get_list(term, ss);
+                let complex = get_complex(term, ss);
+                let again = get_ground_term(term, ss);
+                // everything obtained above is used only now
+                let mut text = String::new();
+                for r in [binding, ground, constant, list, complex, again].iter().flatten() {
+                    text.push_str(&r.to_string());
+                }
+                let _ = format_ss(ss);
+                if is_ground && !text.is_empty() {
+                    t.inspected += 1;
+                }
+            }
+        }
+    }
+}
+
 fn format_answer(goal: &Goal, ss: &Rc<SubstitutionSet>) -> String {
     let result = goal.replace_variables(ss);
     format_solution(goal, &result)
@@ -402,6 +433,7 @@ struct Tally {
     cut_rules: u64,
     kb_mutations: u64,
     parsed: u64,
+    inspected: u64,
 }
 
 fn run_scenario(scn: &Scenario, mops: &[MOp], t: &mut Tally) {
@@ -454,6 +486,7 @@ fn run_segment(scn: &Scenario, kb: &KnowledgeBase, mops: &[MOp], t: &mut Tally) 
                 match next_solution(Rc::clone(&hd.sn)) {
                     Some(ss) => {
                         let _ = format_answer(&hd.goal, &ss);
+                        inspect_answer(&hd.goal, &ss, t);
                         t.answers += 1;
                     }
                     None => {
@@ -572,7 +605,7 @@ fn main() {
     // Miri reports threads that are alive when main returns
     std::thread::sleep(Duration::from_millis(1100));
     eprintln!(
-        "TALLY part={} first={} count={} ops={} answers={} timer_during={} timer_after={} timer_cancelled={} solve_calls={} solve_timeouts={} reasks={} cut_rules={} kb_mutations={} parsed={}",
-        part, first, count, t.ops, t.answers, t.timer_fired_during_search, t.timer_fired_after, t.timer_cancelled, t.solve_calls, t.solve_timeouts, t.reasks_after_none, t.cut_rules, t.kb_mutations, t.parsed
+        "TALLY part={} first={} count={} ops={} answers={} timer_during={} timer_after={} timer_cancelled={} solve_calls={} solve_timeouts={} reasks={} cut_rules={} kb_mutations={} parsed={} inspected={}",
+        part, first, count, t.ops, t.answers, t.timer_fired_during_search, t.timer_fired_after, t.timer_cancelled, t.solve_calls, t.solve_timeouts, t.reasks_after_none, t.cut_rules, t.kb_mutations, t.parsed, t.inspected
     );
 }
